@@ -17,6 +17,7 @@ class SimBase(object):
         self.log = []            # (kind, addr) of every command executed
         self.writes = []         # (addr, [old items], [new items]) of executed writes
         self.hook = None
+        self.sent = []           # (command bytes, answered?) of commands that reached the tag
         self.gone = False        # power cut: nothing answers any more
         self.mute = False        # needs re-activation (sense) after an error
 
@@ -24,11 +25,17 @@ class SimBase(object):
         self.ncmd += 1
         if self.gone:
             raise nfc.clf.TimeoutError("tag gone")
+        drop = None
         if self.hook is not None:
-            self.hook(self, cmd)
+            drop = self.hook(self, cmd)      # may raise (command lost)
         if self.gone or self.mute:
             raise nfc.clf.TimeoutError("tag mute")
-        return self.execute(cmd)
+        self.sent.append((list(cmd), False))
+        rsp = self.execute(cmd)
+        if drop is not None:
+            raise drop                       # executed, response lost/garbled
+        self.sent[-1] = (self.sent[-1][0], True)
+        return rsp
 
     def resense(self):
         """reader sensed again: tag leaves the mute state if still powered"""
